@@ -102,39 +102,39 @@ func Readlink(name string) (string, error)    { return os.Readlink(name) }
 func SameFile(fi1, fi2 FileInfo) bool         { return os.SameFile(fi1, fi2) }
 func DirFS(dir string) fs.FS                  { return os.DirFS(dir) }
 
-func IsExist(err error) bool        { return os.IsExist(err) }
-func IsNotExist(err error) bool     { return os.IsNotExist(err) }
-func IsPermission(err error) bool   { return os.IsPermission(err) }
-func IsTimeout(err error) bool      { return os.IsTimeout(err) }
-func IsPathSeparator(c uint8) bool  { return os.IsPathSeparator(c) }
+func IsExist(err error) bool                          { return os.IsExist(err) }
+func IsNotExist(err error) bool                       { return os.IsNotExist(err) }
+func IsPermission(err error) bool                     { return os.IsPermission(err) }
+func IsTimeout(err error) bool                        { return os.IsTimeout(err) }
+func IsPathSeparator(c uint8) bool                    { return os.IsPathSeparator(c) }
 func NewSyscallError(syscall string, err error) error { return os.NewSyscallError(syscall, err) }
 
-func Getenv(key string) string                    { return os.Getenv(key) }
-func LookupEnv(key string) (string, bool)         { return os.LookupEnv(key) }
-func Setenv(key, value string) error              { return os.Setenv(key, value) }
-func Unsetenv(key string) error                   { return os.Unsetenv(key) }
-func Clearenv()                                   { os.Clearenv() }
-func Environ() []string                           { return os.Environ() }
-func ExpandEnv(s string) string                   { return os.ExpandEnv(s) }
+func Getenv(key string) string                      { return os.Getenv(key) }
+func LookupEnv(key string) (string, bool)           { return os.LookupEnv(key) }
+func Setenv(key, value string) error                { return os.Setenv(key, value) }
+func Unsetenv(key string) error                     { return os.Unsetenv(key) }
+func Clearenv()                                     { os.Clearenv() }
+func Environ() []string                             { return os.Environ() }
+func ExpandEnv(s string) string                     { return os.ExpandEnv(s) }
 func Expand(s string, m func(string) string) string { return os.Expand(s, m) }
 
-func TempDir() string                  { return os.TempDir() }
-func Getwd() (string, error)           { return os.Getwd() }
-func Chdir(dir string) error           { return os.Chdir(dir) }
-func Hostname() (string, error)        { return os.Hostname() }
-func Executable() (string, error)      { return os.Executable() }
-func UserHomeDir() (string, error)     { return os.UserHomeDir() }
-func UserCacheDir() (string, error)    { return os.UserCacheDir() }
-func UserConfigDir() (string, error)   { return os.UserConfigDir() }
-func Getpid() int                      { return os.Getpid() }
-func Getppid() int                     { return os.Getppid() }
-func Getuid() int                      { return os.Getuid() }
-func Geteuid() int                     { return os.Geteuid() }
-func Getgid() int                      { return os.Getgid() }
-func Getegid() int                     { return os.Getegid() }
-func Getgroups() ([]int, error)        { return os.Getgroups() }
-func Getpagesize() int                 { return os.Getpagesize() }
-func Exit(code int)                    { os.Exit(code) }
+func TempDir() string                       { return os.TempDir() }
+func Getwd() (string, error)                { return os.Getwd() }
+func Chdir(dir string) error                { return os.Chdir(dir) }
+func Hostname() (string, error)             { return os.Hostname() }
+func Executable() (string, error)           { return os.Executable() }
+func UserHomeDir() (string, error)          { return os.UserHomeDir() }
+func UserCacheDir() (string, error)         { return os.UserCacheDir() }
+func UserConfigDir() (string, error)        { return os.UserConfigDir() }
+func Getpid() int                           { return os.Getpid() }
+func Getppid() int                          { return os.Getppid() }
+func Getuid() int                           { return os.Getuid() }
+func Geteuid() int                          { return os.Geteuid() }
+func Getgid() int                           { return os.Getgid() }
+func Getegid() int                          { return os.Getegid() }
+func Getgroups() ([]int, error)             { return os.Getgroups() }
+func Getpagesize() int                      { return os.Getpagesize() }
+func Exit(code int)                         { os.Exit(code) }
 func FindProcess(pid int) (*Process, error) { return os.FindProcess(pid) }
 func StartProcess(name string, argv []string, attr *ProcAttr) (*Process, error) {
 	return os.StartProcess(name, argv, attr)
